@@ -268,6 +268,27 @@ func c16ListenerFields(c *Ctx) {
 				if reachesCall(x, depth+1) {
 					return true
 				}
+			case *ssa.Store:
+				// put into a local table (a slice of candidates built in this function) that the function then walks
+				if x.Val == v {
+					root := x.Addr
+					for {
+						switch a := root.(type) {
+						case *ssa.IndexAddr:
+							root = a.X
+							continue
+						case *ssa.FieldAddr:
+							root = a.X
+							continue
+						}
+						break
+					}
+					if al, isAlloc := root.(*ssa.Alloc); isAlloc && al.Parent() == x.Parent() {
+						return true
+					}
+				}
+			case *ssa.MakeClosure:
+				return true // captured by a function literal of the same function
 			case *ssa.Return:
 				fn := x.Parent()
 				if len(x.Results) != 1 {
